@@ -9,6 +9,7 @@ what makes an accepting run evidence for the property rather than for the checke
 That `WF` holds after EVERY history and crash is decided by running the checker on the images
 of sampled histories (labelled PARTIAL): the block-level operations are not modelled.
 -/
+import GoNfsd.Lemmas.MultiShrink
 import GoNfsd.Lemmas.MultiTree
 import GoNfsd.Gen.Skeleton
 import GoNfsd.Lemmas.InodeTable
@@ -461,6 +462,32 @@ theorem mapping_in_one_file_moves_no_pointer_of_another (s : GoNfsd.Model.BlockM
     GoNfsd.Model.BlockMap.ptr (GoNfsd.Model.BlockMap.bmap s (roots a) bn).1.st (roots b) q =
       GoNfsd.Model.BlockMap.ptr s.st (roots b) q :=
   (GoNfsd.Model.BlockMap.mbmap_ok s roots a bn h hbn).2 b hb q hq
+
+/-- ... AND UNDER TRUNCATION: the run of `Shrink` on one file of many (from its bookkeeping bound
+    `N` down to `T`) keeps one owner per block across all files, moves no pointer of another file,
+    and every block it frees belongs to NOBODY afterwards and is all zeros — so handing freed
+    blocks out again, to any file, keeps the invariant (`blocks_may_be_recycled`). -/
+theorem truncation_of_one_file_among_many (s : GoNfsd.Model.BlockMap.S) (roots : Nat → List Nat) (a T N : Nat)
+    (h : GoNfsd.Model.BlockMap.MWF s roots) (hN : N ≤ GoNfsd.Model.BlockMap.MAXBLKS)
+    (hemp : GoNfsd.Model.BlockMap.EmptyFrom s.st (roots a) N) :
+    GoNfsd.Model.BlockMap.MWF (GoNfsd.Model.BlockMap.shrinkTo s (roots a) T N).1
+      (GoNfsd.Model.BlockMap.setRoots roots a (GoNfsd.Model.BlockMap.shrinkTo s (roots a) T N).2) ∧
+    (∀ b, b ≠ a → ∀ q, q.valid →
+      GoNfsd.Model.BlockMap.ptr (GoNfsd.Model.BlockMap.shrinkTo s (roots a) T N).1.st (roots b) q =
+        GoNfsd.Model.BlockMap.ptr s.st (roots b) q) ∧
+    (∀ x, x ∈ (GoNfsd.Model.BlockMap.shrinkTo s (roots a) T N).1.freed → x ∉ s.freed →
+      x ≠ 0 ∧
+      (∀ f p, p.valid → GoNfsd.Model.BlockMap.ptr (GoNfsd.Model.BlockMap.shrinkTo s (roots a) T N).1.st
+        (GoNfsd.Model.BlockMap.setRoots roots a (GoNfsd.Model.BlockMap.shrinkTo s (roots a) T N).2 f) p ≠ x) ∧
+      ∀ i, (GoNfsd.Model.BlockMap.shrinkTo s (roots a) T N).1.st x i = 0) :=
+  GoNfsd.Model.BlockMap.mshrink_ok s roots a T N h hN hemp
+
+theorem blocks_may_be_recycled (s : GoNfsd.Model.BlockMap.S) (roots : Nat → List Nat) (L : List Nat)
+    (h : GoNfsd.Model.BlockMap.MWF s roots)
+    (hL : ∀ x ∈ L, x ≠ 0 → (∀ f p, p.valid → GoNfsd.Model.BlockMap.ptr s.st (roots f) p ≠ x) ∧ ∀ i, s.st x i = 0)
+    (hd : GoNfsd.Model.BlockMap.DistinctNZ (s.allocs ++ L)) :
+    GoNfsd.Model.BlockMap.MWF { s with allocs := s.allocs ++ L } roots :=
+  GoNfsd.Model.BlockMap.mrecycle s roots L h hL hd
 
 /-- Non-vacuity: two files take turns at the allocator (direct, indirect and double-indirect blocks):
     all pointers differ. -/
